@@ -5,6 +5,7 @@ import (
 	"fmt"
 	"strings"
 	"sync"
+	"time"
 
 	"github.com/gabriel-vasile/mimetype"
 )
@@ -39,6 +40,7 @@ func coldstartMain(args []string) int {
 	fs := flag.NewFlagSet("coldstart", flag.ExitOnError)
 	out := fs.String("out", "", "report")
 	gor := fs.Int("goroutines", 8, "goroutines")
+	firstExtend := fs.Bool("first-extend", false, "start with the first Extend of the process racing with detections")
 	fs.Parse(args)
 	rep := newReport("coldstart")
 	type sample struct {
@@ -94,6 +96,47 @@ func coldstartMain(args []string) int {
 		}
 		close(start)
 		wg.Wait()
+	}
+	if *firstExtend {
+		// the FIRST Extend of the process while detections are in flight (nothing was registered before)
+		var wg sync.WaitGroup
+		start := make(chan struct{})
+		stop := make(chan struct{})
+		for g := 0; g < *gor; g++ {
+			wg.Add(1)
+			go func(g int) {
+				defer wg.Done()
+				<-start
+				for k := 0; ; k++ {
+					select {
+					case <-stop:
+						return
+					default:
+					}
+					s := samples[(g+k)%len(samples)]
+					m := mimetype.Detect(s.in)
+					got := chain(m)
+					for i := range got {
+						got[i] = baseType(got[i])
+					}
+					mu.Lock()
+					calls++
+					mu.Unlock()
+					if want := exp[(g+k)%len(samples)]; strings.Join(got, ">") != strings.Join(want, ">") {
+						bad("chain-during-first-extend", s.mime, fmt.Sprintf("chain %v, the tree prescribes %v", got, want))
+					}
+				}
+			}(g)
+		}
+		close(start)
+		time.Sleep(2 * time.Millisecond)
+		mimetype.Extend(func(raw []byte, _ uint32) bool { return false }, "x-cold/first", ".first")
+		time.Sleep(2 * time.Millisecond)
+		close(stop)
+		wg.Wait()
+		if mimetype.Lookup("x-cold/first") == nil {
+			bad("first-extend-lost", "x-cold/first", "Lookup after the first Extend returns nil")
+		}
 	}
 	for i, s := range samples {
 		burst(s.in, exp[i], s.mime)
